@@ -678,3 +678,33 @@ PROPS["C03"] = dict(
     trusted_base=["same as C01; reference outlines are computed by the harness (uniform sampling in f32/f64)"],
     assumptions=["points within tolerance (+ sampling error) of the exact boundary are not judged"],
 )
+
+
+# ---- input families added by the audits of 2026-10-01 (DESIGN.md 10.10), appended to the rules above
+_AUDITS = {
+    "C05": "the shape helpers of the stroke builder (add_rectangle / circle / ellipse / rounded_rectangle / polygon / line_segment / "
+           "point, both windings, sizes 0..20, widths below and above the shape: 400 / 4000 shapes through every route; per-vertex "
+           "clauses, triangle differential between routes, region comparison) and the empty caps of sub-paths without extent",
+    "C13": "an audit of every public function of arc.rs in f32 and f64 against an independent reference (1000 + 500 / 8000 + 4000 arcs "
+           "per scalar: radii 1e-5..1e4, ratios up to 50, sweeps 1e-6..4 pi and 0, any angles, SVG arcs of 13 kinds x 4 flag combinations)",
+    "C14": "path buffers holding several paths with different attribute counts through five builder routes (slices, iterators both ways, "
+           "clear, FromIterator), IdPolygon, PathCommands point events over four storage types, FromPolyline, event accessors, "
+           "PathSlice::reversed, extend_from_paths (409 / 3109 buffer cases; all well-nested programs of up to 5 calls exhaustively)",
+    "C18": "an audit on curved paths (616 / 5516 paths x 40 query points: random, far, and exactly level with end points, control points, "
+           "curve extrema and flattening vertices, one ulp above / below) against the winding as total signed angle over an own sampling, "
+           "the fill tessellation at the same points, areas and compute_winding",
+    "C19": "the walker over curved paths with attributes, RegularPattern / RepeatedPattern, through walk_along_path and the PathWalker "
+           "builder methods (300 / 3000 paths) against a dense reference built from the program and against the sampler at the same "
+           "distance; normalized / out-of-range / zero-length sampling",
+    "C20": "an audit at arbitrary angles (412 / 3112 inputs in 12 families: nested, overlapping, self-intersecting, open, curved, rows "
+           "through vertices and along edges, varying and non-positive offsets, dot patterns) against own even-odd row intervals and "
+           "exactly against lyon's own flattening",
+    "C10": "an audit of the public methods of LineSegment, Line, LineEquation, Triangle and the two Bezier types that the identities above "
+           "do not name (2000 / 15000 cases each: mid_point, translate, set_length, solve_*, split_at_x, closest_point and distances, "
+           "bounding_triangle, fat_line, num_quadratics, to_quadratic_error, inflections, casts, Arc::circle); clipping, dragging, "
+           "the linearity predicates and flattening_step are outside the statement and only counted (observations)",
+    "C12": "cubic x cubic with one or both cubics straight, identical / reversed / chained / closing pairs, point cubics at curve "
+           "extrema, coordinate magnitudes 5..5e10, and cubic_polynomial_roots on polynomials with chosen roots (2000 / 15000 per family)",
+}
+for _k, _v in _AUDITS.items():
+    PROPS[_k]["rule"] = PROPS[_k]["rule"] + "; " + _v
